@@ -292,6 +292,28 @@ fn low_order_recipient(ctx: &Ctx) {
             ctx.violation("C05:cli:sender-reported-under-a-name-whose-key-did-not-take-part", json!({"exit": o.exit.describe(), "stderr": err}));
         }
     }
+    // a keyring in which the name "alice" stands for two different keys: a file made with the second key must
+    // never be announced as "from alice" (the tool may refuse the keyring, or report the key as unknown)
+    {
+        let alice = Ident::new("alice", "apw", &mut rng);
+        let bob = Ident::new("bob", "bpw", &mut rng);
+        let mallory_as_alice = Ident::new("alice", "mpw", &mut rng);
+        for (order, text) in [crate::cli::keyring_text(&[(&alice, true), (&bob, true), (&mallory_as_alice, false)]), crate::cli::keyring_text(&[(&mallory_as_alice, false), (&bob, true), (&alice, true)])].iter().enumerate() {
+            wd.write("two-alices.txt", text.as_bytes());
+            let forged = refspec::encode_key_file(&mallory_as_alice.sk, &mallory_as_alice.pk, &bob.pk, &rng.arr32(), &rng.arr32(), b"hi", &[2]).unwrap();
+            wd.write("m2.ktl", &forged);
+            let o = Cmd::new(&wd.path, &["decrypt", "m2.ktl", "-t", "bob", "-k", "two-alices.txt", "--env-pass"]).pass("bpw").run();
+            ctx.eval();
+            let err = o.stderr_s();
+            // acceptable: exit 1 (keyring refused); not acceptable: success naming alice while alice's key took no part
+            if o.exit == Exit::Code(1) {
+                ctx.seen("cli: ambiguous keyring refused (no sender named)");
+                ctx.distinct(&format!("named|two-alices|{}", order));
+            } else {
+                ctx.violation("C05:cli:sender-reported-under-a-name-whose-key-did-not-take-part", json!({"case": "keyring with two entries named alice; file made with the second one's key", "order": order, "exit": o.exit.describe(), "stderr": err}));
+            }
+        }
+    }
     // sanity of the oracle's low-order list: each is really low order for a clamped scalar
     for lo in &low {
         if x25519_raw(&rng.arr32(), lo) != [0u8; 32] {
